@@ -9,6 +9,9 @@ import EaselModel.Shuffle.LemmasQrna
 import EaselModel.Shuffle.LemmasVShuffle
 import EaselModel.Shuffle.LemmasRetry
 import EaselModel.Shuffle.LemmasSample
+import EaselModel.Shuffle.LemmasUniform
+import EaselModel.Shuffle.LemmasUniform2
+import EaselModel.Shuffle.LemmasTermination
 import EaselModel.Shuffle.LawfulRat
 /-! # C18 — property theorems (statements + glue only; lemmas live in Shuffle/*.lean)
 
@@ -37,13 +40,13 @@ theorem xShuffle_spec (dsq : Bytes) (L : Nat) (h : L + 2 ≤ dsq.size) (r : Rng)
 /-- `esl_rsq_CShuffleWindows(r, s, w, shuffled)`, `w ≥ 1`: window `k` = positions `[k·w, min(L,(k+1)·w))` -/
 theorem cShuffleWindows_spec {α : Type} (s : Array α) (w : Nat) (hw : 0 < w) (r : Rng) :
     WinPerm w 0 s.size s (cShuffleWindows s w r).1 :=
-  winOuter_winPerm 0 w 0 s.size (by omega) hw s (by omega) s.size r
+  winOuter_winPerm cWinD w 0 s.size cWinD_le hw s (by omega) s.size r
 
 /-- `esl_rsq_XShuffleWindows(r, dsq, L, w, shuffled)`: window `k` = array positions `[1+k·w, min(1+L, 1+(k+1)·w))`;
     sentinels untouched -/
 theorem xShuffleWindows_spec (dsq : Bytes) (L w : Nat) (hw : 0 < w) (h : L + 2 ≤ dsq.size) (r : Rng) :
     WinPerm w 1 L dsq (xShuffleWindows dsq L w r).1 :=
-  winOuter_winPerm 1 w 1 L (by omega) hw dsq (by omega) L r
+  winOuter_winPerm xWinD w 1 L xWinD_le hw dsq (by omega) L r
 
 /-! ## reversal = mirror image, in place or not -/
 /-- `esl_rsq_CReverse(s, rev)` with separate storage `rev` (any previous content) -/
@@ -154,6 +157,239 @@ theorem dpFind_returns_first_accepted (K sf fuel : Nat) (E : Edges) (r : Rng) :
                   ∀ j, j < k → dpAccepted K sf (dpAttempt K sf (E, r) (j+1)).1 = false
     | none => ∀ j, j < fuel → dpAccepted K sf (dpAttempt K sf (E, r) (j+1)).1 = false :=
   dpFind_first_accepted K sf fuel E r
+
+/-! ## uniformity: Fisher–Yates as coded is a bijection from in-range roll vectors onto arrangements
+
+`ValidRolls n rs`: `rs` has `n-1` entries, the first `< n`, the next `< n-1`, …, the last `< 2` — the `n!` possible outcomes of
+the loop's calls `Roll(n), Roll(n-1), …, Roll(2)`. Each value of a roll has the same number of raw generator words
+(`C09.roll_unbiased32`), so under a uniform word stream the `n!` vectors are equally likely; by the theorems below they
+are in one-to-one correspondence with the `n!` arrangements. Permutation-preservation alone (`cShuffle_perm`) cannot see
+a loop with a wrong range (`Roll(n-1)`: never a fixed point; swap partner `n` instead of `n-1`; `Roll(L)` at every step):
+such loops still permute but are not bijective on rolls. -/
+
+/-- `esl_rsq_CShuffle` / `esl_vec_{D,F,I,L}Shuffle` compute `cShuffleRolls` on the roll vector the generator delivers, and that
+    vector is always in range -/
+theorem cShuffle_via_rolls {α : Type} (s : Array α) (r : Rng) :
+    (cShuffle s r).1 = cShuffleRolls s (fyDraw s.size r) ∧ ValidRolls s.size (fyDraw s.size r) ∧
+      (fyDraw s.size r).length = s.size - 1 :=
+  ⟨fyLoop_eq_fyRolls _ 0 s.size s r, fyDraw_valid s.size r, validRolls_length _ _ (fyDraw_valid s.size r)⟩
+
+/-- **bijection**: for an array of distinct entries and every arrangement `t` of it there is exactly one in-range roll
+    vector that makes the loop of `esl_rsq_CShuffle` produce `t` -/
+theorem cShuffle_bijective_on_rolls {α : Type} (s t : Array α) (hs : s.toList.Nodup) (ht : t.Perm s) :
+    ∃ rs, (ValidRolls s.size rs ∧ cShuffleRolls s rs = t) ∧
+      ∀ rs', ValidRolls s.size rs' → cShuffleRolls s rs' = t → rs' = rs :=
+  fyRolls_bijective 0 s.size s t (by omega) hs ht (fun p hp => by
+    have h1 : s.size ≤ p := by omega
+    rw [Array.getElem?_eq_none h1, Array.getElem?_eq_none (by rw [ht.size_eq]; exact h1)])
+
+/-- for ANY array (repeated entries allowed) the output is the input read through the arrangement of the index array
+    `0,1,…,L-1` produced by the same rolls — to which the bijection applies (`Array.range` has distinct entries) -/
+theorem cShuffle_natural {α : Type} [Inhabited α] (s : Array α) (rs : List Nat) :
+    cShuffleRolls s rs = (cShuffleRolls (Array.range s.size) rs).map (fun k => s[k]!) := by
+  have := fyRolls_natural 0 s.size s rs
+  simpa [cShuffleRolls] using this
+
+/-- `esl_rsq_XShuffle` computes `xShuffleRolls` on the in-range roll vector the generator delivers -/
+theorem xShuffle_via_rolls (dsq : Bytes) (L : Nat) (r : Rng) :
+    (xShuffle dsq L r).1 = xShuffleRolls dsq L (fyDraw L r) ∧ ValidRolls L (fyDraw L r) :=
+  ⟨fyLoop_eq_fyRolls _ 1 L dsq r, fyDraw_valid L r⟩
+
+/-- **bijection, digital**: on the index array `0..n-1` (`n ≥ L+2`), for every arrangement `t` that fixes everything outside
+    positions `1..L` exactly one in-range roll vector makes the loop of `esl_rsq_XShuffle` produce `t`; any `dsq` is read
+    through that arrangement (`xShuffle_natural`) -/
+theorem xShuffle_bijective_on_rolls (n L : Nat) (hL : L + 2 ≤ n) (t : Array Nat) (ht : t.Perm (Array.range n))
+    (hout : ∀ p, (p < 1 ∨ 1 + L ≤ p) → t[p]? = (Array.range n)[p]?) :
+    ∃ rs, (ValidRolls L rs ∧ fyRolls aswap 1 L (Array.range n) rs = t) ∧
+      ∀ rs', ValidRolls L rs' → fyRolls aswap 1 L (Array.range n) rs' = t → rs' = rs :=
+  fyRolls_bijective 1 L (Array.range n) t (by simp; omega) (by simpa using List.nodup_range) ht hout
+
+theorem xShuffle_natural (dsq : Bytes) (L : Nat) (rs : List Nat) :
+    xShuffleRolls dsq L rs = (fyRolls aswap 1 L (Array.range dsq.size) rs).map (fun k => dsq[k]!) :=
+  fyRolls_natural 1 L dsq rs
+
+/-- `esl_msashuffle_Shuffle` (and `esl_msashuffle_PermuteSequenceOrder` with `base = 0`, rows = per-sequence arrays): every
+    row is rearranged by the one plain shuffle that the drawn roll vector defines — the column (record) permutation is the
+    bijective image of the rolls -/
+theorem msaShuffle_via_rolls {α : Type} (base alen : Nat) (rows : Array (Array α)) (r : Rng) :
+    (msaShuffle base rows alen r).1 = rows.map (fun row => fyRolls aswap base alen row (fyDraw alen r)) ∧
+      ValidRolls alen (fyDraw alen r) := by
+  refine ⟨?_, fyDraw_valid alen r⟩
+  rw [← fyRolls_multiSwap]
+  exact fyLoop_eq_fyRolls _ base alen rows r
+
+/-- one window of `esl_rsq_XShuffleWindows` (and of `esl_rsq_CShuffleWindows` once it draws `Roll(j-i+1)`): the inner loop
+    over the `m+1` positions `i..i+m` IS the Fisher–Yates loop on them, on the in-range rolls the generator delivers -/
+theorem shuffleWindow_via_rolls {α : Type} (i m : Nat) (a : Array α) (r : Rng) :
+    (winInner 1 i m a r).1 = fyRolls aswap i (m+1) a (fyDraw (m+1) r) ∧ ValidRolls (m+1) (fyDraw (m+1) r) := by
+  rw [winInner_one_eq_fyLoop]
+  exact ⟨fyLoop_eq_fyRolls _ i (m+1) a r, fyDraw_valid (m+1) r⟩
+
+/-- … hence bijective per window: for distinct entries every arrangement of the window `[i, i+m]` that leaves the rest
+    alone is produced by exactly one in-range roll vector -/
+theorem xShuffleWindows_window_bijective_on_rolls {α : Type} (i m : Nat) (a t : Array α) (hfit : i + (m + 1) ≤ a.size)
+    (hnd : a.toList.Nodup) (ht : t.Perm a) (hout : ∀ p, (p < i ∨ i + (m + 1) ≤ p) → t[p]? = a[p]?) :
+    ∃ rs, (ValidRolls (m+1) rs ∧ fyRolls aswap i (m+1) a rs = t) ∧
+      ∀ rs', ValidRolls (m+1) rs' → fyRolls aswap i (m+1) a rs' = t → rs' = rs :=
+  fyRolls_bijective i (m+1) a t hfit hnd ht hout
+
+/-- **`esl_rsq_CShuffleWindows` as it stands is NOT a uniform shuffle of each window** (proved counterexample; the residue
+    counts per window, i.e. the C18 statement, hold all the same — `cShuffleWindows_spec`): it draws `Roll(j-i)`, so a
+    window of two residues is swapped for EVERY generator state — `esl-shuffle -w 2` prints the same sequence for every
+    seed. (`cWinD` is read from the working tree on every run; the hypothesis holds on the pinned tree and stops holding
+    when the call becomes `Roll(j-i+1)`, after which `shuffleWindow_via_rolls` applies to the text version too.) -/
+theorem cShuffleWindows_pair_always_swapped {α : Type} (h : cWinD = 0) (a b : α) (r : Rng) :
+    (cShuffleWindows #[a, b] 2 r).1 = #[b, a] := by
+  unfold cShuffleWindows
+  rw [h]
+  have e : (roll r 1).1 = 0 := by have := roll_lt r 1 (by omega); omega
+  simp [winOuter, winInner, e, Array.swapIfInBounds]
+
+/-- `esl_rsq_{C,X}ShuffleKmers` (`base = 0` / `1`): the array of the `W = L / K` words of the output is the plain shuffle
+    (`cShuffleRolls`) of the array of the input's words on the in-range roll vector the generator delivers — so the
+    bijection `cShuffle_bijective_on_rolls` applies to the words: when the input's `K`-mers are distinct, every arrangement
+    of them is produced by exactly one roll vector -/
+theorem shuffleKmers_via_rolls {α : Type} (base : Nat) (a : Array α) (L K : Nat) (hfit : base + L ≤ a.size) (r : Rng) :
+    chunks K (base + L % K) (L / K) (shuffleKmers base a L K r).1 =
+      cShuffleRolls (chunks K (base + L % K) (L / K) a) (fyDraw (L / K) r) ∧ ValidRolls (L / K) (fyDraw (L / K) r) := by
+  refine ⟨?_, fyDraw_valid _ r⟩
+  have hdm : K * (L / K) + L % K = L := Nat.div_add_mod L K
+  have hfit' : base + L % K + (L / K) * K ≤ a.size := by rw [Nat.mul_comm]; omega
+  unfold shuffleKmers cShuffleRolls
+  simp only []
+  rw [fyLoop_eq_fyRolls, fyRolls_blockSwap_chunks K (base + L % K) (L / K) (L / K) (Nat.le_refl _) a _ hfit' (fyDraw_valid _ r)]
+  simp [chunks]
+
+/-- **counting form**: there are exactly `n!` in-range roll vectors (`allRolls n` lists each once); `esl_rsq_CShuffle`'s loop
+    maps them to pairwise different arrangements of `0..n-1`, and every arrangement occurs: the `n!` equally likely roll
+    vectors hit each of the `n!` arrangements exactly once -/
+theorem cShuffle_counts (n : Nat) :
+    (allRolls n).length = fact n ∧ (allRolls n).Nodup ∧ (∀ rs, rs ∈ allRolls n ↔ ValidRolls n rs) ∧
+    ((allRolls n).map (cShuffleRolls (Array.range n))).Nodup ∧
+    ∀ t : Array Nat, t.Perm (Array.range n) ↔ t ∈ (allRolls n).map (cShuffleRolls (Array.range n)) := by
+  have hnd : (Array.range n).toList.Nodup := by simpa using List.nodup_range
+  refine ⟨allRolls_length n, allRolls_nodup n, mem_allRolls n, ?_, fun t => ⟨fun ht => ?_, fun ht => ?_⟩⟩
+  · rw [List.Nodup, List.pairwise_map]
+    refine List.Pairwise.imp_of_mem ?_ (allRolls_nodup n)
+    intro rs rs' h1 h2 hne e
+    apply hne
+    have v1 := (mem_allRolls n rs).1 h1
+    have v2 := (mem_allRolls n rs').1 h2
+    have hp : (cShuffleRolls (Array.range n) rs').Perm (Array.range n) := fyRolls_perm 0 _ _ _
+    obtain ⟨rs0, _, hu⟩ := cShuffle_bijective_on_rolls (Array.range n) _ hnd hp
+    simp only [Array.size_range] at hu
+    rw [hu rs v1 e, hu rs' v2 rfl]
+  · obtain ⟨rs0, ⟨hv, he⟩, _⟩ := cShuffle_bijective_on_rolls (Array.range n) t hnd ht
+    simp only [Array.size_range] at hv
+    exact List.mem_map.2 ⟨rs0, (mem_allRolls n rs0).2 hv, he⟩
+  · obtain ⟨rs, _, rfl⟩ := List.mem_map.1 ht
+    exact fyRolls_perm 0 _ _ _
+
+/-- every Fisher–Yates instance of the library is the skeleton `fyLoop` with some swap action (`esl_vec_*Shuffle`, the
+    per-vertex edge shuffle of step 5 of the DP shuffle, the per-column `esl_rsq_XShuffle` of `esl_msashuffle_VShuffle`, …):
+    it computes `fyRolls` on the in-range roll vector the generator delivers -/
+theorem fisherYates_via_rolls {σ : Type} (sw : σ → Nat → Nat → σ) (base n : Nat) (s : σ) (r : Rng) :
+    (fyLoop sw base n s r).1 = fyRolls sw base n s (fyDraw n r) ∧ ValidRolls n (fyDraw n r) :=
+  ⟨fyLoop_eq_fyRolls sw base n s r, fyDraw_valid n r⟩
+
+/-- … and with the array swap it is a bijection from in-range roll vectors onto the arrangements of positions
+    `[base, base+n)` (distinct entries; everything outside untouched) -/
+theorem fisherYates_bijective_on_rolls {α : Type} (base n : Nat) (a t : Array α) (hfit : base + n ≤ a.size)
+    (hnd : a.toList.Nodup) (ht : t.Perm a) (hout : ∀ p, (p < base ∨ base + n ≤ p) → t[p]? = a[p]?) :
+    ∃ rs, (ValidRolls n rs ∧ fyRolls aswap base n a rs = t) ∧
+      ∀ rs', ValidRolls n rs' → fyRolls aswap base n a rs' = t → rs' = rs :=
+  fyRolls_bijective base n a t hfit hnd ht hout
+
+/-- `esl_vec_{D,F,I,L}Shuffle64`: the same loop on the rolls of the 64-bit generator, always in range — the bijection
+    `cShuffle_bijective_on_rolls` applies unchanged -/
+theorem vecShuffle64_via_rolls {α : Type} (v : Array α) (r : Rng64) :
+    (vecShuffle64 v r).1 = cShuffleRolls v (fyDraw64 v.size r) ∧ ValidRolls v.size (fyDraw64 v.size r) :=
+  ⟨fyLoop64_eq_fyRolls _ 0 v.size v r, fyDraw64_valid v.size r⟩
+
+/-- `esl_rsq_Sample` samples uniformly from the class: the output is `c[i₁] … c[i_L]` for the `L` in-range rolls
+    `i_k = Roll(n)` the generator delivers, where the table `c` lists every 7-bit member of the class exactly once -/
+theorem rsqSample_uniform (flag L : Nat) (cls : Nat → Bool) (h : sampleClass flag = some cls) (r : Rng) :
+    ∃ rolls : List Nat, rolls.length = L ∧ (∀ i ∈ rolls, i < (sampleTable cls).size) ∧
+      (rsqSample flag L r).1 = some (rolls.map (fun i => (sampleTable cls).getD i 0)).toArray ∧
+      (sampleTable cls).toList.Nodup ∧ ∀ x, x ∈ sampleTable cls ↔ x < 128 ∧ cls x = true := by
+  obtain ⟨h1, h2⟩ := sampleDraw_lt (sampleTable cls).size (sampleTable_nonempty flag cls h) L r
+  refine ⟨sampleDraw (sampleTable cls).size L r, h1, h2, ?_, sampleTable_nodup cls, sampleTable_iff cls⟩
+  simp only [rsqSample, h]
+  rw [sampleLoop_eq]
+  simp
+
+/-- `esl_rsq_xIID(r, NULL, K, L, dsq)`: the residues ARE the `L` rolls `Roll(K)` -/
+theorem iidUniform_exact (K L : Nat) (r : Rng) : (iidUniform K L r #[]).1 = (sampleDraw K L r).toArray := by
+  rw [iidUniform_eq]; simp
+
+/-- `esl_msashuffle_Bootstrap` samples columns with replacement through `Roll(alen)`: output column `p` IS input column
+    `i_p`, where `i_0 … i_{alen-1}` are the `alen` in-range rolls the generator delivers (strengthens
+    `bootstrap_only_input_columns`) -/
+theorem bootstrap_exact (base alen : Nat) (msa boot : Array Bytes) (hsz : boot.size = msa.size)
+    (hm : ∀ k (hk : k < msa.size), base + alen ≤ msa[k].size)
+    (hb : ∀ k (hk : k < boot.size), base + alen ≤ boot[k].size) (r : Rng) :
+    ∃ cols : List Nat, cols.length = alen ∧ (∀ i ∈ cols, i < alen) ∧
+      ∀ p, p < alen → column (bootstrap base alen msa boot r).1 (base + p) = column msa (base + cols.getD p 0) := by
+  refine ⟨sampleDraw alen alen r, ?_, ?_, fun p hp => ?_⟩
+  · by_cases h0 : alen = 0
+    · subst h0; rfl
+    · exact (sampleDraw_lt alen (by omega) alen r).1
+  · by_cases h0 : alen = 0
+    · subst h0; intro i hi; simp [sampleDraw] at hi
+    · exact (sampleDraw_lt alen (by omega) alen r).2
+  · have := bootLoop_exact base alen msa hm alen 0 boot r (by omega) hsz hb (base + p)
+    unfold bootstrap
+    rw [this, if_pos (by omega)]
+    simp
+
+/-! ## the two probabilistically terminating loops -/
+/-- `esl_rnd_Roll(r, n)` for every `int n > 0`: the rejected raw words are exactly the top interval `[n·f, 2^32)` with
+    `f = (2^32-1)/n`; it has at most `n` and fewer than `2^31` of the `2^32` words: every draw is accepted with
+    probability `> 1/2` -/
+theorem roll_rejects_less_than_half (n : Nat) (hn : 0 < n) (hn' : n < 2^31) :
+    (∀ x, rollWord n x = none ↔ n * ((2^32-1)/n) ≤ x) ∧ n * ((2^32-1)/n) ≤ 2^32 - 1 ∧
+      2^32 - n * ((2^32-1)/n) ≤ n ∧ 2^32 - n * ((2^32-1)/n) < 2^31 := by
+  obtain ⟨h1, h2, h3⟩ := reject_count_gen (2^32-1) n hn (by omega)
+  exact ⟨fun x => rollWord_none_iff n x hn (by omega), h3, by omega, by omega⟩
+
+/-- `esl_rand64_Roll`: at most half of the `2^64` words are rejected, and at most `n` -/
+theorem roll64_rejects_at_most_half (n : Nat) (hn : 0 < n) (hn' : n < 2^64) :
+    (∀ x, rollWord64 n x = none ↔ n * ((2^64-1)/n) ≤ x) ∧
+      2^64 - n * ((2^64-1)/n) ≤ n ∧ 2 * (2^64 - n * ((2^64-1)/n)) ≤ 2^64 := by
+  obtain ⟨h1, h2, h3⟩ := reject_count_gen (2^64-1) n hn (by omega)
+  exact ⟨fun x => rollWord64_none_iff n x hn hn', by omega, by omega⟩
+
+/-- the fuel of the model's rejection loop is exhausted only by `fuel` consecutive raw words that all lie in the rejection
+    interval (probability `< 2^-fuel` under a uniform stream, by the previous theorem) -/
+theorem roll_fuel_exhausted_only_by_rejected_run (r : Rng) (n fuel : Nat) (hn : 0 < n) (hn' : n < 2^31)
+    (h : r.roll n fuel = none) : ∀ j, j < fuel → n * ((2^32-1)/n) ≤ (rngWord r j).toNat :=
+  Rng_roll_none_run r n fuel hn (by omega) h
+
+/-- one pass of last-edge selection (step 2 of the DP shuffle) computes `dpSelectLastRolls` on the in-range roll vector the
+    generator delivers -/
+theorem dpSelectLast_via_rolls (sf K : Nat) (E : Edges) (r : Rng) :
+    (dpSelectLast sf (List.range K) E r).1 = dpSelectLastRolls sf (List.range K) E (dpDrawLast sf (List.range K) E r) ∧
+      DpValidRolls sf (List.range K) E (dpDrawLast sf (List.range K) E r) :=
+  dpSelectLast_eq_rolls sf (List.range K) E r
+
+/-- **the `while (!is_eulerian)` loop can always succeed**: for every valid non-empty input and every edge ordering `E` that
+    a pass can start from (the edge lists built from the input, each list permuted) there exists an in-range roll vector
+    for which the code's own connectivity test accepts the selected last edges (witness: for each vertex the successor of
+    its last occurrence in the input — the original sequence's own last edges) -/
+theorem exists_accepting_rolls (K : Nat) (codes : List Nat) (hK : ∀ c ∈ codes, c < K) (hne : codes ≠ [])
+    (E : Edges) (hp : PermEdges E (dpBuild K codes)) :
+    ∃ rs, DpValidRolls (codes.getLastD 0) (List.range K) E rs ∧
+      dpAccepted K (codes.getLastD 0) (dpSelectLastRolls (codes.getLastD 0) (List.range K) E rs) = true :=
+  exists_accepting_rolls' K codes hK hne E hp
+
+/-- … in particular at the start of every pass `k` of the retry loop, whatever the generator did before: each pass is
+    accepted with positive probability (finitely many in-range rolls, each value of positive probability) -/
+theorem dpRetry_every_pass_can_accept (K : Nat) (codes : List Nat) (hK : ∀ c ∈ codes, c < K) (hne : codes ≠ [])
+    (r : Rng) (k : Nat) :
+    ∃ rs, DpValidRolls (codes.getLastD 0) (List.range K) (dpAttempt K (codes.getLastD 0) (dpBuild K codes, r) k).1 rs ∧
+      dpAccepted K (codes.getLastD 0)
+        (dpSelectLastRolls (codes.getLastD 0) (List.range K) (dpAttempt K (codes.getLastD 0) (dpBuild K codes, r) k).1 rs) = true :=
+  exists_accepting_rolls' K codes hK hne _ (dpAttempt_perm K _ (dpBuild K codes, r) k)
 
 /-! ## 64-bit vector shuffles and random character strings -/
 /-- `esl_vec_{D,F,I,L}Shuffle64` (generator `ESL_RAND64`): same length, same multiset, for every generator state -/
@@ -416,5 +652,24 @@ example : (shuffleDPcore 3 [0,1,2,0,1,0] (Rng.create .fast 1)).1 = .ok #[0, 1, 0
 example : (∀ c ∈ [0,1,2,0,1,0], c < 3) ∧ 2 < [0,1,2,0,1,0].length := by decide
 example : (reverse false (#[1, 2, 3] : Array Nat) #[0, 0, 0] 0 3) = #[3, 2, 1] := by decide
 example : (reverse true (#[1, 2, 3, 4] : Array Nat) #[1, 2, 3, 4] 0 4) = #[4, 3, 2, 1] := by decide
+
+/-- the six in-range roll vectors of a 3-element shuffle give the six arrangements -/
+example : ([[0,0],[0,1],[1,0],[1,1],[2,0],[2,1]].map (cShuffleRolls #[0,1,2])).Nodup ∧
+    cShuffleRolls #[10,20,30] [0,0] = #[20,30,10] := by decide
+example : cWinD = 0 ∨ cWinD = 1 := by decide
+example : fact 4 = 24 ∧ (allRolls 4).length = 24 ∧ [3,1,0] ∈ allRolls 4 := by decide
+example : ValidRolls 3 [2,1] ∧ ¬ ValidRolls 3 [3,0] ∧ ¬ ValidRolls 3 [0,2] := by simp [ValidRolls]
+/-- a biased variant (`Roll(n)` with the same `n` at every step: roll vectors from `{0,1,2}²` for three elements, 9 vectors
+    onto 6 arrangements) is not injective on its rolls — the kind of loop the bijection theorem excludes -/
+example : cShuffleRolls #[0,1,2] [0,2] = cShuffleRolls #[0,1,2] [1,0] := by decide
+/-- the rejection interval of `Roll(3)`: only the word `2^32-1` is rejected -/
+example : rollWord 3 (2^32-1) = none ∧ rollWord 3 (2^32-2) = some 2 := by decide
+/-- input `0 1 2 1 2 0` over 3 vertices (edge lists `0:[1] 1:[2,2] 2:[1,0]`, `sf = 0`): selecting `2→1` is rejected by the
+    connectivity test (the retry loop is live), selecting `2→0` is accepted -/
+example : dpAccepted 3 0 (dpSelectLastRolls 0 (List.range 3) (dpBuild 3 [0,1,2,1,2,0]) [0, 0]) = false ∧
+    dpAccepted 3 0 (dpSelectLastRolls 0 (List.range 3) (dpBuild 3 [0,1,2,1,2,0]) [0, 1]) = true := by decide
+example : ∃ rs, DpValidRolls 0 (List.range 3) (dpBuild 3 [0,1,2,1,2,0]) rs ∧
+    dpAccepted 3 0 (dpSelectLastRolls 0 (List.range 3) (dpBuild 3 [0,1,2,1,2,0]) rs) = true :=
+  exists_accepting_rolls 3 [0,1,2,1,2,0] (by decide) (by decide) _ (PermEdges.refl _)
 
 end EaselModel.Props.C18
